@@ -78,7 +78,7 @@ def strategy(tier):
                              max_size=5),
         'emitter': st.lists(st.just('emit'), max_size=2),
         'second': st.booleans(),
-        'choices': st.lists(st.integers(0, 3), max_size=80)})
+        'choices': st.lists(st.integers(0, 3), min_size=25, max_size=80)})
     stim = st.one_of(
         st.just('ev'), st.just('ev'), st.just('recv'), st.just('recv1'),
         st.just('tick'), st.just('lose'), st.just('reconnect_ok'),
@@ -830,6 +830,44 @@ def _check_async(case):
                     raise Violation('emit-disconnected-error', '')
             elif final[0]:
                 raise Violation('emit-hangs-after-final-disconnect', '')
+        if final[0] and not pending and not sc.connected:
+            # the connection has ended for good: what was received before
+            # that is still returned, then receive() and emit() say so
+            for _ in range(len(arrivals) - len(returned) + 1):
+                pending.append((loop.spawn(recv_wrap(1)), 1))
+                loop.run_until_idle()
+                for _ in range(3):
+                    if pending and not pending[0][0].done():
+                        loop.advance()
+                if not pending[0][0].done():
+                    raise Violation('receive-parked-with-event-available'
+                                    if len(arrivals) > len(returned)
+                                    else KF_HANG, 'receive(timeout=1) after '
+                                    'the end never returns')
+                kind, val, _n = pending[0][0].result()
+                if kind == 'exc' and isinstance(
+                        val, socketio.exceptions.TimeoutError) and \
+                        len(arrivals) == len(returned):
+                    raise Violation('timeout-after-the-end',
+                                    'receive() after the connection has '
+                                    'ended for good (application '
+                                    'disconnect: %s) raises TimeoutError, '
+                                    'not DisconnectedError'
+                                    % bool(labels.get(
+                                        'application_disconnects')))
+                harvest()
+            if len(returned) != len(arrivals):
+                raise Violation('event-lost-or-reordered',
+                                'received before the end but never '
+                                'returned: %r of %r' % (returned, arrivals))
+            et = loop.spawn(sc.emit('x', 1))
+            loop.run_until_idle()
+            if not et.done():
+                raise Violation('emit-hangs-after-final-disconnect', '')
+            if not isinstance(et.exception(),
+                              socketio.exceptions.DisconnectedError):
+                raise Violation('emit-after-the-end', repr(et.exception()))
+            labels['probed_after_the_end'] = True
         labels['events'] = len(arrivals)
         if case.get('second') and final[0] and not pending and \
                 not sc.connected:
